@@ -779,7 +779,12 @@ class Analysis:
     def canon(self, pk):
         """a temp that is a plain copy of a longer-lived place stands for that place"""
         src = self.copy_src.get(pk) if hasattr(self, 'copy_src') else None
-        return src if src is not None else pk
+        out = src if src is not None else pk
+        if out[1] and ('deref', ) in out[1] and hasattr(self, 'refs'):
+            root = self.root_of_ref(out)
+            if root != out and not any(e == ('deref', ) for e in root[1]):
+                out = root  # a copy of `*r`: stands for what r points to
+        return out
 
     def cast_preserves(self, st, rv):
         v = self.read_operand(st, rv['a'])
@@ -894,7 +899,7 @@ class Analysis:
     def root_of_ref(self, pk):
         """follow reference locals (and reborrows `&*r`) back to the place they point to"""
         seen = set()
-        for _ in range(12):
+        for _ in range(16):
             if pk in seen:
                 break
             seen.add(pk)
@@ -904,6 +909,17 @@ class Analysis:
             if pk[1] and pk[1][0] == ('deref', ) and (pk[0], ()) in self.refs:
                 tgt = self.refs[(pk[0], ())]
                 pk = (tgt[0], tgt[1] + pk[1][1:])
+                continue
+            # a reference stored in a field (closure environment): `*(clo.i)` is what capture i points to
+            hit = False
+            for k in range(len(pk[1]) - 1, 0, -1):
+                pre = (pk[0], pk[1][:k])
+                if pre in self.refs and pk[1][k] == ('deref', ):
+                    tgt = self.refs[pre]
+                    pk = (tgt[0], tgt[1] + pk[1][k + 1:])
+                    hit = True
+                    break
+            if hit:
                 continue
             break
         return pk
@@ -1074,6 +1090,13 @@ class Analysis:
                         if lt['k'] in ('ref', 'ptr') and place_key(s['lhs']) not in self.refs:
                             # a moved / unsized copy of a reference points where the original points
                             self.refs[place_key(s['lhs'])] = place_key(p)
+        for bi in fn.reachable():
+            for s in fn.blocks[bi]['stmts']:
+                if s['k'] == 'assign' and not s['lhs']['p'] and s['rv']['k'] == 'agg' and s['rv'].get('ak') == 'closure':
+                    for i_, o_ in enumerate(s['rv']['ops']):
+                        p_ = op_place(o_)
+                        if p_ is not None and not p_['p'] and (p_['l'], ()) in self.refs:
+                            self.refs[(s['lhs']['l'], (('f', i_, str(i_)), ))] = self.refs[(p_['l'], ())]
         for bi in fn.reachable():
             t = fn.blocks[bi]['term']
             if t['k'] == 'call' and t.get('callee') in ('core::convert::From::from', 'core::convert::Into::into') and \
